@@ -271,16 +271,20 @@ def rule_uncg(ctx, py, R="C16.UNCG"):
                   "the group's value divided by the size of that same group",
                   "a cell receives `%s`, not the node's content / number of cells of the node: the cells of a node no longer add "
                   "up to the node, species totals of the returned trajectory differ from the simulated ones" % pyfe.src(v)[:80])
-    defs = {s_.targets[0].id: pyfe.src(s_.value) for s_ in ast.walk(f) if isinstance(s_, ast.Assign) and
-            isinstance(s_.targets[0], ast.Name)}
-    ctx.check(defs.get("state_size", "").replace(" ", "") in
-              ("trajectory.system.network.nspecies()*ncg_space.size()",
-               "ncg_space.size()*trajectory.system.network.nspecies()"), R, f, f._qual,
-              "state_size = " + defs.get("state_size", "?"), "species x fine cells", "wrong stride")
+    P_ = lambda t: ast.parse(t, mode="eval").body
+    ss = pysym.frat(P_("state_size"), f)
+    ctx.check(ss.equals(pysym.rat(P_("trajectory.system.network.nspecies() * ncg_space.size()"))), R, f, f._qual,
+              "state_size = %r" % (ss,), "species x fine cells", "wrong stride")
     rs = [c for c in pyfe.calls_in(f) if isinstance(c.func, ast.Attribute) and c.func.attr == "reshape"]
-    ctx.check(len(rs) == 1 and pyfe.src(rs[0].args[0]).replace(" ", "") ==
-              "(trajectory.nsamples(),trajectory.system.network.nspecies(),cg_space.size())", R,
-              rs[0] if rs else f, f._qual, "reshape" + (pyfe.src(rs[0].args[0]) if rs else "?"),
+    shape = None
+    if len(rs) == 1 and rs[0].args:
+        a0 = pysym.inline(rs[0].args[0], f) if len(rs[0].args) == 1 else ast.Tuple(elts=[pysym.inline(a, f) for a in rs[0].args],
+                                                                                ctx=ast.Load())
+        if isinstance(a0, ast.Tuple) and len(a0.elts) == 3:
+            shape = [pyfe.src(e).replace(" ", "") for e in a0.elts]
+    ctx.check(shape == ["trajectory.nsamples()", "trajectory.system.network.nspecies()", "cg_space.size()"] or
+              shape == ["trajectory.nsamples()", "trajectory.system.network.nspecies()", "trajectory.system.space.size()"], R,
+              rs[0] if rs else f, f._qual, "reshape(%s)" % (shape,),
               "(sample, species, group)", "coarse data not viewed as (sample, species, group)")
     # membership lists: cell i joins group index_map[i] (guard checked by C16.M1)
     ap = [c for c in pyfe.calls_in(f) if pyfe.call_name(c).endswith(".append")]
